@@ -118,6 +118,18 @@ let run_yparse (arg : string) =
     | _ -> failwith ("bad token " ^ t)) (String.split_on_char ';' arg) in
   print_endline (ocaml_string (Model.show_outcome (Model.parse_tokens (nat_of_int 100000) toks)))
 
+(* mschema TOKS|TOKS|... : the table's CREATE TABLE tokens, then the tokens of each of its indexes ("!" = did not tokenize) *)
+let toks_of (arg : string) = if arg = "" || arg = "-" then [] else List.map (fun t ->
+    match String.split_on_char ':' t with
+    | [ty; s; n; f] -> { Model.ttyp = z_of_dec ty; Model.ts = coq_string (unhex s); Model.tn = z_of_dec n; Model.tf = z_of_hex f }
+    | _ -> failwith ("bad token " ^ t)) (String.split_on_char ';' arg)
+let run_mschema (arg : string) =
+  match String.split_on_char '|' arg with
+  | [] -> print_endline "mschema: bad arguments"
+  | t :: idx ->
+    let ix = List.map (fun a -> if a = "!" then None else Some (toks_of a)) idx in
+    print_endline ("schema " ^ ocaml_string (Model.schema_of_tokens (nat_of_int 100000) (toks_of t) ix))
+
 (* mscan DESTS VALUES ORACLE: Model/RowScan.v scan_args; ORACLE = per column ff/pf/pt as printed by the implementation harness *)
 let rec z_to_string (z : Model.z) : string =
   let rec pos_to_int64 = function Model.XH -> 1L | Model.XO p -> Int64.mul 2L (pos_to_int64 p) | Model.XI p -> Int64.add (Int64.mul 2L (pos_to_int64 p)) 1L in
@@ -229,6 +241,7 @@ let () =
       else if starts_with "reload " line then load_image (String.sub line 7 (String.length line - 7)) true
       else if starts_with "drv " line then run_drv (String.split_on_char ' ' line)
       else if starts_with "mscan " line then run_mscan (String.split_on_char ' ' line)
+      else if starts_with "mschema " line then run_mschema (String.sub line 8 (String.length line - 8))
       else if starts_with "yparse" line then run_yparse (if String.length line > 7 then String.sub line 7 (String.length line - 7) else "")
       else if starts_with "crashphases" line then begin
         (* the order of a writer's file operations against Model/Crash.v's protocol automaton *)
